@@ -9,14 +9,98 @@ open Gomjml.Amp Gomjml.InlineCss
 
 def emit (cur : List B) : List (List B) := if cur = [] then [] else [cur.reverse]
 
-def fieldsAux : Nat → List B → List B → List (List B)
-  | 0, _, cur => emit cur
+/-- `skip` = bytes of a multi-byte white-space character still to pass over -/
+def fieldsS : Nat → List B → List B → List (List B)
   | _, [], cur => emit cur
-  | fuel + 1, b :: r, cur =>
-    if spaceLen (b :: r) = 0 then fieldsAux fuel r (b :: cur)
-    else emit cur ++ fieldsAux fuel ((b :: r).drop (spaceLen (b :: r))) []
+  | skip + 1, _ :: r, cur => fieldsS skip r cur
+  | 0, b :: r, cur =>
+    if spaceLen (b :: r) = 0 then fieldsS 0 r (b :: cur)
+    else emit cur ++ fieldsS (spaceLen (b :: r) - 1) r []
 
-def fields (s : List B) : List (List B) := fieldsAux (s.length + 1) s []
+def fields (s : List B) : List (List B) := fieldsS 0 s []
+
+/-! #### spelling does not matter: any white space between, before and behind the values gives the same values -/
+
+def isAsciiSp (b : B) : Bool := b == 9 || b == 10 || b == 11 || b == 12 || b == 13 || b == 32
+/-- a byte that neither is ASCII white space nor starts a multi-byte white-space character (digits, letters, `.`, `%`, signs …) -/
+def plain (b : B) : Bool := !isAsciiSp b && b != 0xC2 && b != 0xE1 && b != 0xE2 && b != 0xE3
+
+theorem spaceLen_ascii (b : B) (r : List B) (h : isAsciiSp b = true) : spaceLen (b :: r) = 1 := by
+  simp only [isAsciiSp, Bool.or_eq_true, beq_iff_eq] at h
+  rcases h with ((((h | h) | h) | h) | h) | h <;> subst h <;> rfl
+
+theorem spaceLen_plain (b : B) (r : List B) (h : plain b = true) : spaceLen (b :: r) = 0 := by
+  simp only [plain, isAsciiSp, Bool.and_eq_true, Bool.not_eq_true', Bool.or_eq_false_iff, beq_eq_false_iff_ne, bne_iff_ne, ne_eq] at h
+  obtain ⟨⟨⟨⟨⟨⟨⟨⟨⟨h9, h10⟩, h11⟩, h12⟩, h13⟩, h32⟩, hc2⟩, he1⟩, he2⟩, he3⟩ := h
+  unfold spaceLen
+  split <;> simp_all
+
+theorem fieldsS_spaces : ∀ (sp s : List B), (∀ b ∈ sp, isAsciiSp b = true) → fieldsS 0 (sp ++ s) [] = fieldsS 0 s []
+  | [], _, _ => rfl
+  | b :: sp, s, h => by
+    have hb := spaceLen_ascii b (sp ++ s) (h b (by simp))
+    show fieldsS 0 (b :: (sp ++ s)) [] = _
+    rw [fieldsS]
+    simp only [hb, Nat.one_ne_zero, if_false, emit, if_true, List.nil_append, Nat.sub_self]
+    exact fieldsS_spaces sp s (fun x hx => h x (by simp [hx]))
+
+theorem fieldsS_word : ∀ (w s cur : List B), (∀ b ∈ w, plain b = true) → fieldsS 0 (w ++ s) cur = fieldsS 0 s (w.reverse ++ cur)
+  | [], _, _, _ => rfl
+  | b :: w, s, cur, h => by
+    have hb := spaceLen_plain b (w ++ s) (h b (by simp))
+    show fieldsS 0 (b :: (w ++ s)) cur = _
+    rw [fieldsS]
+    simp only [hb, if_true]
+    rw [fieldsS_word w s (b :: cur) (fun x hx => h x (by simp [hx]))]
+    simp
+
+theorem fieldsS_sep (b : B) (sp s cur : List B) (hb : isAsciiSp b = true) (hsp : ∀ x ∈ sp, isAsciiSp x = true) (hc : cur ≠ []) :
+    fieldsS 0 (b :: sp ++ s) cur = cur.reverse :: fieldsS 0 s [] := by
+  have h1 := spaceLen_ascii b (sp ++ s) hb
+  show fieldsS 0 (b :: (sp ++ s)) cur = _
+  rw [fieldsS]
+  simp only [h1, Nat.one_ne_zero, if_false, emit, hc, Nat.sub_self]
+  rw [fieldsS_spaces sp s hsp]
+  rfl
+
+/-- **the values of a shorthand do not depend on how they are separated**: values made of plain bytes, any ASCII white space
+    in front, any non-empty ASCII white space between them, any behind the last — `strings.Fields` gives the values -/
+theorem fields_words : ∀ (ws : List (List B × List B)) (lead : List B),
+    (∀ b ∈ lead, isAsciiSp b = true) →
+    (∀ p ∈ ws, p.1 ≠ [] ∧ (∀ b ∈ p.1, plain b = true) ∧ (∀ b ∈ p.2, isAsciiSp b = true)) →
+    (∀ i, i + 1 < ws.length → ∀ p, ws[i]? = some p → p.2 ≠ []) →
+    fields (lead ++ ws.flatMap (fun p => p.1 ++ p.2)) = ws.map (·.1) := by
+  intro ws lead hl
+  unfold fields
+  rw [fieldsS_spaces lead _ hl]
+  clear hl lead
+  induction ws with
+  | nil => intro _ _; rfl
+  | cons p rest ih =>
+    intro hp hs
+    obtain ⟨hne, hw, hsp⟩ := hp p (by simp)
+    simp only [List.flatMap_cons, List.map_cons, List.append_assoc]
+    rw [fieldsS_word p.1 _ [] hw]
+    simp only [List.append_nil]
+    have hrne : p.1.reverse ≠ [] := by simpa using hne
+    cases hsep : p.2 with
+    | nil =>
+      -- the last value: nothing may follow
+      have hrest : rest = [] := by
+        cases rest with
+        | nil => rfl
+        | cons q r =>
+          exact absurd hsep (hs 0 (by simp) p (by simp))
+      subst hrest
+      simp [fieldsS, emit, hrne]
+    | cons b sp =>
+      have hb : isAsciiSp b = true := hsp b (by simp [hsep])
+      have hsp' : ∀ x ∈ sp, isAsciiSp x = true := fun x hx => hsp x (by simp [hsep, hx])
+      rw [show (b :: sp) ++ List.flatMap (fun p => p.1 ++ p.2) rest = b :: sp ++ List.flatMap (fun p => p.1 ++ p.2) rest from rfl]
+      rw [fieldsS_sep b sp _ _ hb hsp' hrne]
+      simp only [List.reverse_reverse]
+      congr 1
+      exact ih (fun q hq => hp q (by simp [hq])) (fun i hi q hq => hs (i + 1) (by simpa using hi) q (by simpa using hq))
 
 /-! ### the horizontal values of a shorthand: CSS's box rule -/
 
